@@ -136,12 +136,12 @@ open Esdt
 
 /-- FULL (history level, across hand-overs): in a world of any number of shards, along ANY history of built-in calls by
     anyone on any shard (all 23 functions, any arguments, failed calls rolled back) and deliveries of hand-over messages
-    that respects the single-creator discipline `CStepOK` (a transaction runs on its sender's shard; the create role of the
-    token moves only by hand-over, issued by the system contract at the current holder towards another shard; no counter
-    reaches 2^64 − 1), the nonces returned by ALL successful ESDTNFTCreate calls for the token — whoever made them, on
-    whichever shard, before or after any number of hand-overs — are strictly increasing in time, hence no two NFTs of the
-    token share a nonce; the nonces issued before the history stay a suffix of the record; and the create authority stays
-    at exactly one place (`Loc`: one account listing the role once, or one message in flight, or nowhere) -/
+    (any delay, each once) that respects the single-creator discipline `CStepOK` (a transaction runs on its sender's
+    shard; the create role of the token moves only by hand-over, issued by the system contract at the current holder —
+    next holder on the same shard or on another one; no counter reaches 2^64 − 1), the nonces returned by ALL successful
+    ESDTNFTCreate calls for the token — whoever made them, on whichever shard, before or after any number of hand-overs —
+    are strictly increasing in time, hence no two NFTs of the token share a nonce; and the create authority stays at
+    exactly one place (`Loc`: one account listing the role once, or one message in flight, or nowhere) -/
 theorem nonces_unique_across_handovers (e : Env) (tok : Bytes) (steps : List CStep) (w : CWorld)
     (hI : CInv e tok w) (hok : CStepsOK e tok steps w) :
     (crun e tok steps w).issued.Pairwise (· > ·) ∧ (crun e tok steps w).issued.Nodup ∧
@@ -166,6 +166,20 @@ def st4 : CStep := .call 0 .nftCreate bobCreate
 def st5 : CStep := .call 1 .nftCreate createCall
 example : (crun env2 tk [st1, st2, st3, st4, st5] W0).issued = [2, 1] := by decide +kernel
 example : (crun env2 tk [st1, st2] W0).flight.length = 1 := by decide +kernel
+
+/-- same-shard hand-over (alice → carol, both on shard 1): one call does both halves, no message; carol continues at 2 -/
+def carol : Bytes := List.replicate 32 3
+def st2s : CStep := .call 1 .nftCreateRoleTransfer { handoverCall with args := [tk, carol] }
+def st4s : CStep := .call 1 .nftCreate { createCall with caller := carol, rcv := carol }
+example : (crun env2 tk [st1, st2s, st4s, st5] W0).issued = [2, 1] ∧ (crun env2 tk [st1, st2s] W0).flight = [] := by
+  decide +kernel
+example : CStepsOK env2 tk [st1, st2s, st4s, st5] W0 := cstepsOKb_sound _ _ _ _ (by decide +kernel)
+
+/-- the output transfer a same-shard hand-over still emits is not a message: its delivery is refused in every state -/
+theorem same_shard_output_refused (e : Env) (tok : Bytes) (m : HMsg) (A : Accts) (out : VMOutput) (ctx' : Ctx)
+    (hp : present e.nshards (shardOf e.nshards m.dest) m.prev = true) :
+    exec { e with self := shardOf e.nshards m.dest } .nftCreateRoleTransfer (deliverCall tok m) { accts := A } ≠
+      .ok (out, ctx') := same_shard_message_dead e tok m A out ctx' hp
 
 /-- the hypotheses of `nonces_unique_across_handovers` hold of this world and this history -/
 theorem crCnt_empty (a t : Bytes) : crCnt [] a t = 0 := by
